@@ -118,11 +118,12 @@ def rand_key(rng, depth=0):
 
 class C07:
     prop = "C07"
-    lean_module = "Ogorek.Props.C07R"
+    lean_module = "Ogorek.Props.C07T"
     theorems = ["Ogorek.C07_exact_num", "Ogorek.C07_symm", "Ogorek.C07_hash_num", "Ogorek.C07_hash", "Ogorek.C07_hash_any_seed",
                 "Ogorek.C07_strings", "Ogorek.C07_tuple", "Ogorek.C07_lookup", "Ogorek.F64.ofIntExact_sound",
                 "Ogorek.F64.ofIntExact_complete", "Ogorek.F64.integral_same", "Ogorek.C07_refl", "Ogorek.goEqualList_refl", "Ogorek.C07_refl_nan",
-                "Ogorek.reflOK_of_hashable", "Ogorek.C07_refl_hashable"]
+                "Ogorek.reflOK_of_hashable", "Ogorek.C07_refl_hashable", "Ogorek.numEq_trans", "Ogorek.strEq_trans", "Ogorek.strEq_not_trans",
+                "Ogorek.C07_trans", "Ogorek.goEqualList_trans"]
     trusted_base = TB_COMMON + ["gomap implements a hash table correctly when equal keys hash equally (the contract proved in C07_hash)",
                                 "hash/maphash is an arbitrary function of (seed, bytes); big.Int.Float64 reports Exact iff the integer is a float64",
                                 "CPython 3.11 `==` as the meaning of Python equality (the independent Lean spec `exactEq` is compared with it on every run)"]
@@ -131,7 +132,8 @@ class C07:
                   "float is determined by its integer value — F64.integral_same — and big.Int→float exactness, sound and complete); "
                   "`equal` is symmetric (C07_symm) and reflexive on every key holding no NaN, false on a NaN with itself as in Python "
                   "(C07_refl, C07_refl_nan) — in particular on every key `hash` accepts (C07_refl_hashable: the kinds `equal` never accepts "
-                  "are kinds `hash` panics on); equal keys have the same hash tree, hence the same hash for EVERY hash function and "
+                  "are kinds `hash` panics on), and transitive through every middle value that holds no ByteString, containers included (C07_trans, from "
+                  "numEq_trans — equality of exact values — and strEq_trans; strEq_not_trans is the ByteString exception, K2's root); equal keys have the same hash tree, hence the same hash for EVERY hash function and "
                   "seed (C07_hash, C07_hash_any_seed), so a lookup succeeds iff the keys are equal whatever the seed (C07_lookup); str and "
                   "bytes differ, ByteString equals both, tuples compare element-wise (C07_strings, C07_tuple). Tie: the unexported "
                   "equal/hash of the real package (verif hook) on all ordered pairs of a boundary lattice, 4 seeds each, plus black-box "
@@ -269,20 +271,21 @@ def ref_history(ops):
 
 class C08:
     prop = "C08"
-    lean_module = "Ogorek.Props.C07R"
+    lean_module = "Ogorek.Props.C07T"
     theorems = ["Ogorek.tableDelete_spec", "Ogorek.C08_del", "Ogorek.C08_set", "Ogorek.C08_set_del", "Ogorek.C08_del_none",
                 "Ogorek.C08_inv_step", "Ogorek.C08_inv", "Ogorek.C08_len_iter", "Ogorek.C08_get_any", "Ogorek.C08_match_unique",
                 "Ogorek.C08_get_after_set", "Ogorek.C08_K2_witness", "Ogorek.C08_get_after_del", "Ogorek.C08_frame_del",
                 "Ogorek.C08_frame_set", "Ogorek.C08_get_frame", "Ogorek.C08_len_del", "Ogorek.C08_len_set", "Ogorek.C08_len_set_inv",
                 "Ogorek.C08_len_bound", "Ogorek.C08_entries_from_sets", "Ogorek.C08_get_set_same", "Ogorek.C08_get_set_hashable",
-                "Ogorek.C08_get_from_sets"]
+                "Ogorek.C08_get_from_sets", "Ogorek.C08_match_unique_noBS"]
     trusted_base = TB_COMMON + ["gomap.Map refines the abstract table (Delete/Get act on SOME entry equal to the key; which one is "
                                 "universally quantified) — justified by C07_hash + C07_symm, not by a proof about gomap's buckets"]
     level_text = ("Lean theorems for EVERY history and EVERY way the table resolves its choices (`pick`): Del's loop removes exactly the "
                   "entries equal to its argument and terminates (C08_del, via tableDelete_spec), Set = Del then insert, in closed form "
                   "(C08_set, C08_set_del, C08_del_none), no two stored keys are ever equal (C08_inv_step, C08_inv by induction over the "
                   "operation list), Len = number of entries Iter yields (C08_len_iter), Get returns the value of an entry equal to the "
-                  "query (C08_get_any), unique when equality is transitive around the query (C08_match_unique), and right after Set it is "
+                  "query (C08_get_any), unique when equality is transitive around the query (C08_match_unique) — proved for every query holding no ByteString "
+                  "(C08_match_unique_noBS, from C07_trans), and right after Set it is "
                   "the value just set (C08_get_after_set); for a NaN-free key, Get k right after Set k v is v outright (C08_get_set_same, C08_get_set_hashable for every key the Dict accepts, from C07_refl); right after Del it is nothing (C08_get_after_del); Set / Del of a key leave the "
                   "candidates of every unrelated query untouched, so its Get is unchanged (C08_frame_set, C08_frame_del, C08_get_frame); Len "
                   "moves by exactly the number of entries equal to the key (C08_len_del, C08_len_set, C08_len_set_inv); after any history Len is at most the number of Sets and every stored entry is "
